@@ -377,6 +377,8 @@ func areaCff(c *Ctx) {
 	c13GenRealBoundary(c)
 	c13GenEncodingSubset(c)
 	c13GenCrossDefaults(c)
+	c13GenBlueGaps(c)
+	c13GenLargeWidths(c)
 }
 
 // mutate returns a damaged copy of data (truncation, bit flip, byte overwrite, count inflation).
@@ -2601,12 +2603,19 @@ func c13EmitFont(c *Ctx, f *c13Font, readers bool) {
 	}
 	out := Exec("cff.file.write font=" + desc)
 	if strings.HasPrefix(out, "ok:") {
-		c.Case(Direct, "cff.file.spec", "file="+out[3:]+" want="+desc, true)
+		if !c13SkipSpec {
+			c.Case(Direct, "cff.file.spec", "file="+out[3:]+" want="+desc, true)
+		}
 		if len(out) < 6000 {
 			c13ReadCases(c, c13HexMust(out[3:]), 1)
 		}
 	}
 }
+
+// c13SkipSpec: set while emitting fonts whose written file is known to differ from what TN5176 says
+// (finding: blue values more than 32767 apart are written as int16-wrapped deltas; only a reader that
+// wraps at 16 bits, like the library's own, recovers them)
+var c13SkipSpec bool
 
 // c13SweepFont: a tiny font whose section offsets are steered by the string lengths
 func c13SweepFont(r *Rng, lens [5]int, nFD int, variant int) *c13Font {
@@ -3068,5 +3077,108 @@ func c13GenCrossDefaults(c *Ctx) {
 		v := Pick(r, matVals)
 		f.fm = [6]float64{v, 0, 0, v, 0, 0}
 		emit(f, "all fields")
+	}
+}
+
+// ---------------------------------------------------------------------------------------
+// blue arrays with neighbouring values more than an int16 apart (seeded change C13-r6m1): the writer
+// stores int16-wrapped deltas, the reader adds them up in int16, so every int16 array comes back
+
+func c13GenBlueGaps(c *Ctx) {
+	r := c.Rng
+	gaps := []int{32766, 32767, 32768, 32769, 40000, 50000, 65534, 65535}
+	var arrays [][]int
+	for _, g := range gaps {
+		for _, lo := range []int{-32768, -32767, -20000, -1, 0} {
+			hi := lo + g
+			if hi > 32767 {
+				continue
+			}
+			arrays = append(arrays, []int{lo, hi})
+			if lo+10 < hi {
+				arrays = append(arrays, []int{lo, lo + 10, hi - 5, hi}) // gap in the middle
+			}
+		}
+	}
+	arrays = append(arrays, []int{-20000, 20000}, []int{-32768, 0}, []int{-32768, 32767}, []int{32767, 32767}, []int{-32768, -32768},
+		[]int{20000, 30000}, []int{32760, 32767}, []int{-32768, -32760, 32760, 32767}, []int{-32768, 32767, 32767, 32767},
+		// descending arrays (negative deltas below -32768): not meaningful as zones, but int16 arrays all the same
+		[]int{20000, -20000}, []int{32767, -32768}, []int{0, -32768}, []int{32767, -1})
+	for i, a := range arrays {
+		if c.Tier != "thorough" && i%2 == 1 && !r.Chance(1, 2) {
+			continue
+		}
+		for _, nFD := range []int{0, 2} {
+			if nFD == 2 && !r.Chance(1, 2) {
+				continue
+			}
+			f := c13SweepFont(r, [5]int{4, 2, 0, 0, 0}, nFD, 2)
+			for p := range f.privs {
+				f.privs[p] = c13Priv{bs: 7, bf: 1, bscale: 0.039625}
+			}
+			which := r.Intn(3)
+			q := &f.privs[len(f.privs)-1]
+			if which != 1 {
+				q.bv = a
+			}
+			if which != 0 {
+				q.ob = a
+			}
+			wraps := false
+			prev := 0
+			for _, v := range a {
+				if v-prev > 32767 || v-prev < -32768 {
+					wraps = true
+				}
+				prev = v
+			}
+			c.Stat("blue_gap", map[bool]string{true: "a delta outside int16 (written wrapped)", false: "all deltas int16"}[wraps])
+			c13SkipSpec = wraps
+			c13EmitFont(c, f, true)
+			c13SkipSpec = false
+		}
+	}
+}
+
+// ---------------------------------------------------------------------------------------
+// all widths large (seeded change C13-r6m2): the nominal width must follow them
+
+func c13GenLargeWidths(c *Ctx) {
+	r := c.Rng
+	sets := [][]float64{
+		{70000, 70010, 70020}, {100000}, {100000, 100000, 100500}, {1000000, 1000010}, {65534, 65535, 65536, 65537},
+		{65535}, {65536, 65536, 65540, 65541}, {70000, 70000, 70000, 80000, 90000, 102767}, {98304.5, 98305.25, 98400},
+		{2000000, 2000000, 2032767}, {40000, 50000, 60000, 70000}, {32768, 65535}, {65535, 98302}, {-70000, -70010, -70020},
+		{-100000}, {-65536, -65540, -98303}, {33000, 33000, 33001}, {32768}, {-32768}, {131072, 131073.5},
+	}
+	for i, ws := range sets {
+		for _, nFD := range []int{0, 2} {
+			if c.Tier != "thorough" && nFD == 2 && i%2 == 1 {
+				continue
+			}
+			f := c13SweepFont(r, [5]int{4, 2, 0, 0, 0}, nFD, 2)
+			for p := range f.privs {
+				f.privs[p] = c13Priv{bs: 7, bf: 1, bscale: 0.039625}
+			}
+			// .notdef and one more glyph carry the most frequent (default) width of the set
+			f.widths = []float64{ws[0], ws[0]}
+			f.widths = append(f.widths, ws...)
+			ng := len(f.widths)
+			f.fds = make([]int, ng)
+			if f.isCID {
+				f.cids = make([]int, ng)
+				for g := range f.cids {
+					f.cids[g] = g * 3
+					f.fds[g] = g % nFD
+				}
+			} else {
+				f.names = []string{".notdef"}
+				for g := 1; g < ng; g++ {
+					f.names = append(f.names, "w"+strconv.Itoa(g))
+				}
+			}
+			c.Stat("large_widths", bucket(int(math.Abs(ws[len(ws)-1]))))
+			c13EmitFont(c, f, r.Chance(1, 2))
+		}
 	}
 }
